@@ -115,7 +115,7 @@ def gen_bases(R, seed, tier, count, size_cap):
             e = gen.gen_election(rnd, rule=frule, small=(rnd.random() < 0.6), flags=flags)
         if 0.04 <= r < 0.12:
             o = gen.gen_options(rnd, rule=rule, n=e['n'])
-            e['droop'] = gen.droop_tokens(o)
+            e['droop'] = gen.droop_tokens(o, rnd)
         text = gen.render_blt(e, rnd)
         out.append(('gen/%d' % i, gen.encode_blt(text, rnd)))
     return out
